@@ -1,11 +1,488 @@
-import Irc.Step
+/-
+  Irc.Props.C05 — property C05 (no crash).
+
+  "For every sequence of lines a client can send - well formed or not, in any session state - the
+  server answers or ignores each line and keeps serving: the sending connection stays open unless
+  the protocol itself ends it (QUIT, failed password, KILL, ping timeout, DIE, or bytes that are not
+  valid text / an over-long line, which may at worst close that one connection cleanly), and no
+  other connection is closed, stalled or deprived of messages as a consequence.  In particular no
+  command, parameter, mask, mode string or text makes a handler abort abnormally."
+
+  In the model every `unwrap` / index / slice / checked-arithmetic site of the Rust handlers is a
+  branch that sets `World.panicked`.  Helper lemmas (the effect relation `Eff`, proved for all 41
+  handlers without any assumption on the state) are in `Irc/Props/C05Lemmas.lean`.
+-/
+import Irc.Props.C05Lemmas
+
 namespace Irc.C05
 open Irc
 
-/-- placeholder first theorem: a `connect` never sets the panic flag. -/
-theorem connect_no_panic (cfg : Cfg) (w : World) (c : Nat) (ip : Str) (h : w.panicked = none) :
-    (step cfg w (.connect c ip)).w.panicked = none := by
-  simp only [step]
-  split <;> (try split) <;> simp [h]
+/-! ### a. no handler aborts -/
+
+/-- One operation from a state satisfying the invariant never hits a panic site -- for EVERY event,
+    in particular `Event.line c s` for every connection `c` and every line `s` (any characters, any
+    length). -/
+theorem no_panic {cfg : Cfg} {w : World} {e : Event} (h : Inv w) (hs : Sched w e) :
+    (step cfg w e).w.panicked = none :=
+  (inv_step h hs).noPanic
+
+/-- specialisation to lines: nothing is required of `c` or `s` -/
+theorem no_panic_line {cfg : Cfg} {w : World} (h : Inv w) (c : Nat) (s : Str) :
+    (step cfg w (.line c s)).w.panicked = none :=
+  no_panic h trivial
+
+/-- no reachable state has the panic flag set -/
+theorem no_panic_reachable {cfg : Cfg} {evs : List Event} (hs : SchedAll cfg evs) :
+    (run cfg evs).panicked = none :=
+  (inv_run hs).noPanic
+
+theorem no_panic_of_reachable {cfg : Cfg} {w : World} (hr : Reachable cfg w) : w.panicked = none :=
+  (inv_reachable hr).noPanic
+
+/-- the flag is not merely clear at the end of the operation: the handler itself (before the
+    settling phase) has not set it -/
+theorem handler_no_panic {cfg : Cfg} {w : World} {c : Nat} {s : Str} (h : Inv w) (hl : Live w c) :
+    (handleLine cfg c s { w := w }).w.panicked = none :=
+  (invCore_handleLine (x := { w := w }) h.toInvCore hl).1.noPanic
+
+/-! ### b. every line is answered or ignored; nothing already written is lost -/
+
+/-- `handleLine` is total (trivially, in Lean); the meaningful statement: for every line, in every
+    context, the handler only ever APPENDS to the replies of the sender (`direct`) and to the lines
+    queued for other users (`queued`) -- the old contents stay, as a prefix.  ("Ignored" is the case
+    where nothing is appended, e.g. a blank line.)  All 41 handlers, no assumption on the state. -/
+theorem every_line_answered_or_ignored (cfg : Cfg) (c : Nat) (s : Str) (x : Ctx) :
+    x.direct <+: (handleLine cfg c s x).direct ∧ x.queued <+: (handleLine cfg c s x).queued :=
+  ⟨(eff_handleLine (cfg := cfg) (c := c) (X := x) (s := s)).direct,
+   (eff_handleLine (cfg := cfg) (c := c) (X := x) (s := s)).queued⟩
+
+/-- the same for the dispatcher alone -/
+theorem every_command_answered_or_ignored (cfg : Cfg) (c : Nat) (msg : Message) (cmd : Command)
+    (x : Ctx) : x.direct <+: (dispatch cfg c msg cmd x).direct ∧
+      x.queued <+: (dispatch cfg c msg cmd x).queued :=
+  ⟨(eff_dispatch (cfg := cfg) (c := c) (X := x) (msg := msg) (cmd := cmd)).direct,
+   (eff_dispatch (cfg := cfg) (c := c) (X := x) (msg := msg) (cmd := cmd)).queued⟩
+
+/-- and nobody is deprived of messages by the delivery: everything the handler wrote (its replies,
+    then the queued lines, in order) is the beginning of what the operation delivers; the settling
+    phase only adds lines (the ERROR line of a killed connection) -/
+theorem every_line_delivered {cfg : Cfg} {w : World} {c : Nat} {s : Str} {cn : Conn}
+    (hc : w.conn? c = some cn) :
+    ((handleLine cfg c s { w := w }).direct.map (fun l => (c, l)) ++
+      (handleLine cfg c s { w := w }).queued) <+: (step cfg w (.line c s)).outs := by
+  unfold step
+  simp only [hc]
+  exact finish_outs_prefix cfg c _ []
+
+/-- a blank line is ignored altogether -/
+theorem blank_line_ignored (cfg : Cfg) (c : Nat) (x : Ctx) : handleLine cfg c [] x = x := by
+  have hp : Message.parse [] = .error .empty := by decide
+  unfold handleLine
+  simp only [hp]
+
+/-! ### c. nobody else is closed -/
+
+/-- case analysis of a `line` operation -/
+theorem step_line_cases (cfg : Cfg) (w : World) (c : Nat) (s : Str) :
+    (w.conn? c = none ∧ (step cfg w (.line c s)).w = w) ∨
+    (∃ cn, w.conn? c = some cn ∧
+      step cfg w (.line c s) = finish cfg c (handleLine cfg c s { w := w })) := by
+  unfold step
+  simp only
+  split
+  · rename_i h; exact Or.inl ⟨h, rfl⟩
+  · rename_i cn h; exact Or.inr ⟨cn, h, rfl⟩
+
+/-- Frame fact, all handlers, NO assumption on the state: every connection record other than the
+    sender's stems from a record with the same id and the same `quit` flag -- a handler never sets
+    the `quit` flag of anybody but its own connection. -/
+theorem handleLine_others_frame (cfg : Cfg) (c : Nat) (s : Str) (x : Ctx) :
+    ∀ y, y ∈ (handleLine cfg c s x).w.conns → y.id ≠ c →
+      ∃ y0, y0 ∈ x.w.conns ∧ y0.id = y.id ∧ y0.quit = y.quit ∧ (lineKills s = false → y0 = y) := by
+  intro y hy hne
+  obtain ⟨y0, h0, hid, hr⟩ := (eff_handleLine (cfg := cfg) (c := c) (X := x) (s := s)).conns y hy
+  exact ⟨y0, h0, hid, (hr hne).1, (hr hne).2⟩
+
+/-- The same in terms of `Ctx.conn`, in a state satisfying the (mid-operation) invariant:
+    `quit` of every other connection is untouched -- by every handler, KILL and DIE included. -/
+theorem handleLine_quit_only_self {cfg : Cfg} {c : Nat} {s : Str} {x : Ctx} (h : InvCore x.w)
+    (hl : Live x.w c) : ∀ d, d ≠ c → ((handleLine cfg c s x).conn d).quit = (x.conn d).quit := by
+  intro d hd
+  obtain ⟨hI, hS⟩ := invCore_handleLine (cfg := cfg) (s := s) h hl
+  cases hx : x.w.conn? d with
+  | some cn0 =>
+    have hl0 : Live x.w d := ⟨cn0, conn?_mem hx, conn?_id hx⟩
+    obtain ⟨y, hy, hym, hyid⟩ := conn?_of_live (Live.of_same hS hl0)
+    obtain ⟨y0, h0, hid0, hq, _⟩ := handleLine_others_frame cfg c s x y hym (by rw [hyid]; exact hd)
+    have : y0 = cn0 := Tear.conn_eq_of_id h.connsNodup h0 (conn?_mem hx)
+      (by rw [hid0, hyid, conn?_id hx])
+    rw [conn_of_conn? hy, conn_of_conn? hx, ← hq, this]
+  | none =>
+    have hn : (handleLine cfg c s x).w.conn? d = none := by
+      cases hy : (handleLine cfg c s x).w.conn? d with
+      | none => rfl
+      | some y =>
+        have hS' : SameConnIds (handleLine cfg c s x).w x.w := by
+          unfold SameConnIds at hS ⊢; exact hS.symm
+        obtain ⟨cn, hcn, _, _⟩ := conn?_of_live (Live.of_same hS' ⟨y, conn?_mem hy, conn?_id hy⟩)
+        rw [hx] at hcn; cases hcn
+    unfold Ctx.conn
+    rw [hn, hx]
+
+/-- A command other than KILL / DIE / SQUIT leaves every other connection exactly as it was:
+    same record, still open after the operation. -/
+theorem others_untouched {cfg : Cfg} {w : World} {c : Nat} {s : Str} (h : Inv w)
+    (hk : lineKills s = false) :
+    ∀ y, y ∈ w.conns → y.id ≠ c → y ∈ (step cfg w (.line c s)).w.conns := by
+  intro y hy hne
+  rcases step_line_cases cfg w c s with ⟨_, e⟩ | ⟨cn, hc, e⟩
+  · rw [e]; exact hy
+  · rw [e]
+    have hl : Live w c := ⟨cn, conn?_mem hc, conn?_id hc⟩
+    obtain ⟨hI, hS⟩ := invCore_handleLine (cfg := cfg) (s := s) (x := { w := w }) h.toInvCore hl
+    rw [Tear.finish_conns hI]
+    obtain ⟨y', hy', hid'⟩ := Live.of_same hS ⟨y, hy, rfl⟩
+    obtain ⟨y0, h0, hid0, _, heq⟩ :=
+      handleLine_others_frame cfg c s { w := w } y' hy' (by rw [hid']; exact hne)
+    have e0 : y0 = y := Tear.conn_eq_of_id h.connsNodup h0 hy (by rw [hid0, hid'])
+    have e1 : y = y' := e0.symm.trans (heq hk)
+    exact ⟨e1 ▸ hy', (h.settled y hy).1, (h.settled y hy).2⟩
+
+/-- hence: if the parsed command is none of KILL, DIE, SQUIT (in particular if the line does not
+    parse at all), every other live connection stays live -/
+theorem others_stay_open {cfg : Cfg} {w : World} {c : Nat} {s : Str} (h : Inv w)
+    (hk : lineKills s = false) : ∀ d, d ≠ c → Live w d → Live (step cfg w (.line c s)).w d := by
+  rintro d hd ⟨y, hy, hid⟩
+  exact ⟨y, others_untouched h hk y hy (by rw [hid]; exact hd), hid⟩
+
+/-- In general: another connection `d` disappears only if the command was KILL / DIE / SQUIT and
+    the handler set `d`'s `killedBy` (the fired quit signal, consumed by the settling phase). -/
+theorem others_closed_only_by_kill {cfg : Cfg} {w : World} {c d : Nat} {s : Str} (h : Inv w)
+    (hd : d ≠ c) (hl : Live w d) (hgone : ¬ Live (step cfg w (.line c s)).w d) :
+    lineKills s = true ∧
+    ∃ y, y ∈ (handleLine cfg c s { w := w }).w.conns ∧ y.id = d ∧ y.killedBy.isSome = true := by
+  rcases step_line_cases cfg w c s with ⟨_, e⟩ | ⟨cn, hc, e⟩
+  · rw [e] at hgone; exact absurd hl hgone
+  · have hlc : Live w c := ⟨cn, conn?_mem hc, conn?_id hc⟩
+    obtain ⟨hI, hS⟩ := invCore_handleLine (cfg := cfg) (s := s) (x := { w := w }) h.toInvCore hlc
+    obtain ⟨y, hy, hid⟩ := Live.of_same hS hl
+    obtain ⟨y0, h0, hid0, hq, heq⟩ :=
+      handleLine_others_frame cfg c s { w := w } y hy (by rw [hid]; exact hd)
+    have hyq : y.quit = false := by rw [← hq]; exact (h.settled y0 h0).1
+    have hyk : y.killedBy ≠ none := by
+      intro hk
+      apply hgone
+      rw [e]
+      exact ⟨y, (Tear.finish_conns hI y).mpr ⟨hy, hyq, hk⟩, hid⟩
+    refine ⟨?_, y, hy, hid, ?_⟩
+    · cases hk : lineKills s with
+      | true => rfl
+      | false =>
+        have := heq hk
+        subst this
+        exact absurd (h.settled y0 h0).2 hyk
+    · cases hkb : y.killedBy with
+      | none => exact absurd hkb hyk
+      | some p => rfl
+
+/-- The sender itself stays open unless the protocol ends the connection: the command is QUIT, or
+    the registration failed with a bad password (the 464 reply has been written), or the command is
+    KILL / DIE / SQUIT and hit the sender itself (its own `killedBy` was set). -/
+theorem sender_stays_open {cfg : Cfg} {w : World} {c : Nat} {s : Str} (h : Inv w) (hl : Live w c) :
+    Live (step cfg w (.line c s)).w c ∨
+    lineQuits s = true ∨
+    Said464 cfg (handleLine cfg c s { w := w }) ∨
+    (lineKills s = true ∧
+      ∃ y, y ∈ (handleLine cfg c s { w := w }).w.conns ∧ y.id = c ∧ y.killedBy.isSome = true) := by
+  obtain ⟨cn, hc, hm, hid⟩ := conn?_of_live hl
+  rcases step_line_cases cfg w c s with ⟨hn, _⟩ | ⟨_, _, e⟩
+  · rw [hc] at hn; cases hn
+  · obtain ⟨hI, hS⟩ := invCore_handleLine (cfg := cfg) (s := s) (x := { w := w }) h.toInvCore hl
+    obtain ⟨cn', hc', hq, hk⟩ :=
+      (eff_handleLine (cfg := cfg) (c := c) (X := { w := w }) (s := s)).self cn hc
+    have hm' := conn?_mem hc'
+    have hid' := conn?_id hc'
+    rcases hq with hq | hq | hq
+    · cases hkb : cn'.killedBy with
+      | none =>
+        left
+        rw [e]
+        exact ⟨cn', (Tear.finish_conns hI cn').mpr
+          ⟨hm', by rw [hq]; exact (h.settled cn hm).1, hkb⟩, hid'⟩
+      | some p =>
+        right; right; right
+        refine ⟨?_, cn', hm', hid', by rw [hkb]; rfl⟩
+        cases hks : lineKills s with
+        | true => rfl
+        | false =>
+          have := hk hks
+          rw [hkb, (h.settled cn hm).2] at this
+          cases this
+    · exact Or.inr (Or.inl hq)
+    · exact Or.inr (Or.inr (Or.inl hq))
+
+/-- for an already registered sender that uses none of the registration commands there is no 464
+    case either: e.g. every line that fails to parse keeps the sender open -/
+theorem sender_stays_open_unparsed {cfg : Cfg} {w : World} {c : Nat} {s : Str} (h : Inv w)
+    (hl : Live w c) (hp : lineCmd s = none) : Live (step cfg w (.line c s)).w c := by
+  obtain ⟨cn, hc, hm, hid⟩ := conn?_of_live hl
+  rcases step_line_cases cfg w c s with ⟨hn, _⟩ | ⟨_, _, e⟩
+  · rw [hc] at hn; cases hn
+  · obtain ⟨hI, hS⟩ := invCore_handleLine (cfg := cfg) (s := s) (x := { w := w }) h.toInvCore hl
+    -- a line that does not parse to a command only produces a reply: the world is unchanged
+    have hw : (handleLine cfg c s { w := w }).w = w := by
+      unfold lineCmd at hp
+      unfold handleLine
+      split at hp
+      · rename_i msg hmsg
+        split at hp
+        · cases hp
+        · rename_i e' he
+          simp only [hmsg, he]
+          rfl
+      · rename_i e' he
+        simp only [he]
+        cases e' <;> rfl
+    rw [e]
+    exact ⟨cn, (Tear.finish_conns hI cn).mpr
+      ⟨by rw [hw]; exact hm, (h.settled cn hm).1, (h.settled cn hm).2⟩, hid⟩
+
+/-! ### c'. all events: whatever happens on connection `c` -- a command, garbage, an over-long line,
+  invalid UTF-8, EOF, a reset, a new connection -- the OTHER connections are left exactly as they
+  were, unless the event is a KILL / DIE / SQUIT line -/
+
+/-- the connection an event happens on -/
+def Event.actor : Event → Nat
+  | .connect c _ | .line c _ | .tooLong c | .badUtf8 c | .eof c | .reset c | .partialLine c _ => c
+
+def Event.kills : Event → Bool
+  | .line _ s => lineKills s
+  | _ => false
+
+/-- a stream end on `c` (the framed stream yields an error / `None`): `c` is flagged `quit` and torn
+    down by the settling phase; everybody else keeps its record -/
+theorem streamEnd_others_untouched {cfg : Cfg} {w : World} {c : Nat} {cn : Conn} {x : Ctx}
+    {evs : List Str} (h : Inv w) (hc : w.conn? c = some cn) (hx : x.w = w) :
+    ∀ y, y ∈ w.conns → y.id ≠ c →
+      y ∈ (finish cfg c (x.setConn { cn with quit := true }) evs).w.conns := by
+  intro y hy hne
+  have hm := conn?_mem hc
+  have hid := conn?_id hc
+  have hI : InvCore (x.setConn { cn with quit := true }).w := by
+    rw [Ctx.setConn_w, hx]
+    exact Tear.invCore_setConn_quit h.toInvCore hm cn.killedBy
+  rw [Tear.finish_conns hI, Ctx.setConn_w, hx]
+  refine ⟨?_, (h.settled y hy).1, (h.settled y hy).2⟩
+  exact (Tear.mem_setConn (cn' := { cn with quit := true }) hm rfl y).mpr
+    (Or.inr ⟨hy, by rw [hid]; exact hne⟩)
+
+theorem others_untouched_event {cfg : Cfg} {w : World} {e : Event} (h : Inv w)
+    (hk : Event.kills e = false) :
+    ∀ y, y ∈ w.conns → y.id ≠ Event.actor e → y ∈ (step cfg w e).w.conns := by
+  intro y hy hne
+  cases e with
+  | connect c ip =>
+    rcases Tear.step_connect_w cfg w c ip with e | e <;> rw [e]
+    · exact hy
+    · exact List.mem_append_left _ hy
+  | line c s => exact others_untouched h hk y hy hne
+  | tooLong c =>
+    unfold step
+    simp only
+    split
+    · exact hy
+    · rename_i cn hc
+      exact streamEnd_others_untouched h hc rfl y hy hne
+  | badUtf8 c =>
+    unfold step
+    simp only
+    split
+    · exact hy
+    · rename_i cn hc
+      exact streamEnd_others_untouched h hc rfl y hy hne
+  | eof c =>
+    unfold step
+    simp only
+    split
+    · exact hy
+    · rename_i cn hc
+      exact streamEnd_others_untouched h hc rfl y hy hne
+  | reset c =>
+    unfold step
+    simp only
+    split
+    · exact hy
+    · rename_i cn hc
+      exact streamEnd_others_untouched h hc rfl y hy hne
+  | partialLine c s =>
+    unfold step
+    simp only
+    split <;> exact hy
+
+/-- along a whole run: a connection stays open (with the very same record) as long as nothing
+    happens on it and nobody issues KILL / DIE / SQUIT -/
+theorem bystander_untouched {cfg : Cfg} {w : World} {y : Conn} (evs : List Event) (h : Inv w)
+    (hs : SchedFrom cfg w evs) (hy : y ∈ w.conns)
+    (hq : ∀ e, e ∈ evs → Event.kills e = false ∧ Event.actor e ≠ y.id) :
+    y ∈ (evs.foldl (fun w e => (step cfg w e).w) w).conns := by
+  induction evs generalizing w with
+  | nil => exact hy
+  | cons e es ih =>
+    rw [List.foldl_cons]
+    have he := hq e (List.mem_cons_self ..)
+    exact ih (inv_step h hs.1) hs.2
+      (others_untouched_event h he.1 y hy (fun e' => he.2 e'.symm))
+      (fun e' hm => hq e' (List.mem_cons_of_mem _ hm))
+
+/-! ### d. concrete runs (kernel-checked by `decide`): the inputs that used to crash the Rust
+  server, and a mask-heavy MODE / JOIN session -/
+
+namespace Ex
+
+def cfg0 : Cfg := {}
+
+def reg (c : Nat) (n : String) : List Event :=
+  [.connect c (str "10.0.0.1"), .line c (str ("NICK " ++ n)), .line c (str ("USER " ++ n ++ " 0 * :R"))]
+
+/-- alice (founder) and bob on `#c` -/
+def setup : List Event :=
+  reg 1 "alice" ++ reg 2 "bob" ++ [.line 1 (str "JOIN #c"), .line 2 (str "JOIN #c")]
+
+/-- KICK on a channel that does not exist (Rust: `unwrap` on `None`) -/
+def kick1 : List Event := setup ++ [.line 1 (str "KICK #nochan bob")]
+/-- KICK naming the same user twice (Rust: second `remove_user` unwrap) -/
+def kick2 : List Event := setup ++ [.line 1 (str "KICK #c bob,bob")]
+/-- the last member (an operator) kicks itself: the channel disappears under the handler's feet -/
+def kick3 : List Event :=
+  setup ++ [.line 1 (str "MODE #c +o bob"), .line 1 (str "PART #c"), .line 2 (str "KICK #c bob")]
+
+theorem kick1_sched : SchedAll cfg0 kick1 := by decide
+theorem kick2_sched : SchedAll cfg0 kick2 := by decide
+theorem kick3_sched : SchedAll cfg0 kick3 := by decide
+
+example : (run cfg0 kick1).panicked = none := by decide
+example : (run cfg0 kick2).panicked = none := by decide
+example : (run cfg0 kick3).panicked = none := by decide
+-- the same three facts, from the general theorem
+example : (run cfg0 kick1).panicked = none := no_panic_reachable kick1_sched
+example : (run cfg0 kick2).panicked = none := no_panic_reachable kick2_sched
+example : (run cfg0 kick3).panicked = none := no_panic_reachable kick3_sched
+-- and the runs do what they should: bob is kicked once, the emptied channel is gone, everybody
+-- is still connected
+example : (Map.lookup (str "#c") (run cfg0 kick2).channels).map (fun C => Map.keys C.users) =
+    some [str "alice"] := by decide
+example : (run cfg0 kick3).channels = [] ∧ (run cfg0 kick3).conns.map (·.id) = [1, 2] := by decide
+example : (step cfg0 (run cfg0 setup) (.line 1 (str "KICK #nochan bob"))).outs =
+    [(1, str ":irc.irc 403 alice #nochan :No such channel")] := by decide
+
+/-- masks, keys, limits, rank changes, missing and surplus arguments, list queries -/
+def modeRun : List Event := setup ++
+  [ .line 1 (str "MODE #c +b *!*@*"),
+    .line 1 (str "MODE #c +e b?b!*@10.*"),
+    .line 1 (str "MODE #c +I *"),
+    .line 1 (str "MODE #c +ikl secret 5"),
+    .line 1 (str "MODE #c b"),
+    .line 1 (str "MODE #c +bbb x y"),
+    .line 1 (str "MODE #c +o-o+v bob bob bob"),
+    .line 1 (str "MODE #c +o"),
+    .line 2 (str "PART #c"),
+    .line 2 (str "JOIN #c"),
+    .line 2 (str "JOIN #c secret"),
+    .line 2 (str "JOIN #c,#d,&e secret,,"),
+    .line 2 (str "MODE bob +iw-o"),
+    .line 2 (str "MODE #d +b-b ***?*!*@* ***?*!*@*"),
+    .line 2 (str "WHO *b*"),
+    .line 2 (str "WHOIS a*,?ob"),
+    .line 1 (str "MODE #c -k+k x y") ]
+
+theorem modeRun_sched : SchedAll cfg0 modeRun := by decide
+example : (run cfg0 modeRun).panicked = none := by decide
+example : Inv (run cfg0 modeRun) := inv_run modeRun_sched
+example : (Map.lookup (str "#c") (run cfg0 modeRun).channels).map (fun C => C.modes.ban) =
+    some [str "*!*@*", str "x!*@*", str "y!*@*"] := by decide
+
+/-! non-vacuity of the theorems of part c, on the reachable world `run cfg0 setup` -/
+
+theorem setup_sched : SchedAll cfg0 setup := by decide
+theorem setup_inv : Inv (run cfg0 setup) := inv_run setup_sched
+theorem live1 : Live (run cfg0 setup) 1 := by unfold Live; decide
+theorem live2 : Live (run cfg0 setup) 2 := by unfold Live; decide
+
+-- a KICK is not a kill command: bob's connection survives alice's KICK, unchanged
+example : lineKills (str "KICK #c bob") = false := by decide
+example : Live (step cfg0 (run cfg0 setup) (.line 1 (str "KICK #c bob"))).w 2 :=
+  others_stay_open setup_inv (by decide) 2 (by decide) live2
+-- garbage keeps everybody, the sender included
+example : lineCmd (str "\x01\x02 :::: ") = none := by decide
+example : Live (step cfg0 (run cfg0 setup) (.line 1 (str "\x01\x02 :::: "))).w 1 :=
+  sender_stays_open_unparsed setup_inv live1 (by decide)
+-- QUIT is one of the exceptions of `sender_stays_open`, and it does close the sender (only)
+example : lineQuits (str "QUIT :bye") = true := by decide
+example : (step cfg0 (run cfg0 setup) (.line 1 (str "QUIT :bye"))).w.conns.map (·.id) = [2] := by
+  decide
+-- the handler really appends: a PING is answered, a PRIVMSG is queued for the other member
+example : (handleLine cfg0 1 (str "PING x") { w := run cfg0 setup }).direct =
+    [str ":irc.irc PONG irc.irc :x"] := by decide
+example : (handleLine cfg0 1 (str "PRIVMSG #c :hi") { w := run cfg0 setup }).queued =
+    [(2, str ":alice!~alice@10.0.0.1 PRIVMSG #c :hi")] := by decide
+
+-- an over-long line closes the sender (after the 417) and nobody else
+example : ∀ y, y ∈ (run cfg0 setup).conns → y.id = 2 →
+    y ∈ (step cfg0 (run cfg0 setup) (.tooLong 1)).w.conns :=
+  fun y hy hid => others_untouched_event setup_inv rfl y hy (by rw [hid]; decide)
+example : let r := step cfg0 (run cfg0 setup) (.tooLong 1)
+    r.outs = [(1, str ":irc.irc 417 alice :Input line was too long")] ∧
+    r.w.conns.map (·.id) = [2] ∧ r.w.panicked = none := by decide
+-- bob is a bystander of a whole sequence of events on other connections
+def noise : List Event :=
+  [.line 1 (str "PART #c"), .line 1 (str "\x07\x07"), .connect 3 (str "10.0.0.3"),
+   .line 3 (str "NICK alice"), .badUtf8 1, .line 3 (str "JOIN #c"), .eof 3]
+example : ∀ y, y ∈ (run cfg0 setup).conns → y.id = 2 →
+    y ∈ (noise.foldl (fun w e => (step cfg0 w e).w) (run cfg0 setup)).conns :=
+  fun y hy hid => bystander_untouched noise setup_inv (by decide) hy
+    (by rw [hid]; decide)
+example : (noise.foldl (fun w e => (step cfg0 w e).w) (run cfg0 setup)).conns.map (·.id) = [2] := by
+  decide
+
+/-! the exceptions of `sender_stays_open` / `others_closed_only_by_kill` are real (server with a
+  password and one operator account) -/
+
+def cfgP : Cfg :=
+  { password := some (str "pw"),
+    operators := [{ name := str "root", password := str "op", mask := none }] }
+
+def regP (c : Nat) (n : String) : List Event :=
+  [.connect c (str "10.0.0.1"), .line c (str "PASS pw"), .line c (str ("NICK " ++ n)),
+   .line c (str ("USER " ++ n ++ " 0 * :R"))]
+
+/-- carol gave the wrong password; her USER line completes the (failing) registration -/
+def badPw : List Event := [.connect 1 (str "h"), .line 1 (str "PASS wrong"), .line 1 (str "NICK carol")]
+
+theorem badPw_inv : Inv (run cfgP badPw) := inv_run (by decide)
+example : let r := step cfgP (run cfgP badPw) (.line 1 (str "USER carol 0 * :C"))
+    r.outs = [(1, str ":irc.irc 464 carol :Password incorrect")] ∧ r.w.conns = [] ∧
+    r.w.panicked = none := by decide
+example : Said464 cfgP (handleLine cfgP 1 (str "USER carol 0 * :C") { w := run cfgP badPw }) :=
+  ⟨str "carol", by decide⟩
+
+/-- alice is an IRC operator, bob an ordinary user -/
+def killSetup : List Event := regP 1 "alice" ++ regP 2 "bob" ++ [.line 1 (str "OPER root op")]
+
+theorem killSetup_inv : Inv (run cfgP killSetup) := inv_run (by decide)
+example : lineKills (str "KILL bob :spam") = true := by decide
+-- KILL closes the victim (with the ERROR line) and only the victim
+example : let r := step cfgP (run cfgP killSetup) (.line 1 (str "KILL bob :spam"))
+    r.outs = [(2, str ":irc.irc ERROR :User killed by alice: spam")] ∧
+    r.w.conns.map (·.id) = [1] ∧ r.w.panicked = none := by decide
+-- an operator may kill itself; DIE takes everybody down, cleanly
+example : (step cfgP (run cfgP killSetup) (.line 1 (str "KILL alice :oops"))).w.conns.map (·.id) =
+    [2] := by decide
+example : let r := step cfgP (run cfgP killSetup) (.line 1 (str "DIE"))
+    r.w.conns = [] ∧ r.w.users = [] ∧ r.w.panicked = none := by decide
+-- without the privilege the same line closes nobody
+example : (step cfgP (run cfgP killSetup) (.line 2 (str "KILL alice :no"))).w.conns.map (·.id) =
+    [1, 2] := by decide
+
+end Ex
 
 end Irc.C05
